@@ -1491,6 +1491,13 @@ def mkcomment(comment, width=72, start="$ ", surround=True):
     return s
 
 
+def _dmig_float(num):
+    # 16 character "E" format; a negative number with a 3-digit
+    # exponent needs 17 characters, so drop one digit in that case
+    field = f"{num:16.9E}"
+    return field if len(field) <= 16 else f"{num:16.8E}"
+
+
 @guitools.write_text_file
 def wtdmig(f, dct):
     """
@@ -1653,9 +1660,9 @@ def wtdmig(f, dct):
                     if num != 0.0:
                         gi, ci = rowids[row]
                         if mtype < 3:  # real
-                            num_str = f"{num:16.9E}"
+                            num_str = _dmig_float(num)
                         else:  # complex
-                            num_str = f"{num.real:16.9E}{num.imag:16.9E}"
+                            num_str = _dmig_float(num.real) + _dmig_float(num.imag)
                         if mtype & 1 == 0:  # if even
                             num_str = num_str.replace("E", "D")
                         f.write(f"{'*':<8s}{gi:16d}{ci:16d}{num_str:s}\n")
